@@ -125,6 +125,7 @@ type shardResult struct {
 	probes  map[string]int
 	elapsed time.Duration
 	res     logcap.Result
+	hung    bool // GetSlotState did not return within the watchdog limit
 }
 
 func runShard(s shardScript) shardResult {
@@ -157,7 +158,13 @@ func runShard(s shardScript) shardResult {
 		Target: []string{"10.9.9.9:6379"}, SlotLeftBoundary: 0, SlotRightBoundary: 16383}
 	var out shardResult
 	start := time.Now()
-	out.res = logcap.Run(func() { out.node, out.err = slotsupervisor.VerifNew(sn, factory).GetSlotState() })
+	done := logcap.Start(func() { out.node, out.err = slotsupervisor.VerifNew(sn, factory).GetSlotState() })
+	select {
+	case out.res = <-done:
+	case <-time.After(40 * time.Second):
+		// the bounded retry takes 21 s at most: a discovery still running after 40 s is not going to end
+		out.hung = true
+	}
 	out.elapsed = time.Since(start)
 	out.probes = probes
 	return out
@@ -165,6 +172,9 @@ func runShard(s shardScript) shardResult {
 
 // checkShard returns (signature, message) of a violation, or "".
 func checkShard(s shardScript, r shardResult) (string, string) {
+	if r.hung {
+		return "no-return", "GetSlotState has not returned after 40 s (the bounded retry allows 21 s)"
+	}
 	if !r.res.Completed {
 		return "abort", fmt.Sprintf("GetSlotState aborted: %v", r.res)
 	}
